@@ -432,11 +432,19 @@ fn replay(beh: &Value, line: usize, m: &Map, rep: &mut Report, observe: &str) {
                 return;
             }
             let aborted = ret_only && s(a, "op") == "update" && a["ret"]["c"] == "err";
-            if (ob_state || aborted) && !cmp_state(&o["ost"], &os, m, mag) {
+            // after a successful update the own slots show what following stored only where the device's computation does not write:
+            // a differential never touches commands and writes the state of its distrusted branch only
+            let (pulled_state, pulled_cmd) = if ret_only && s(a, "op") == "update" && !aborted && s(&scen["devs"][0], "type") == "diff" && x <= 3 {
+                let written = match s(&scen["devs"][0], "distrust") { "side1" => vec![1], "side2" => vec![2], "sum" => vec![3], _ => vec![1, 2, 3] };
+                (!written.contains(&x), true)
+            } else {
+                (false, false)
+            };
+            if (ob_state || aborted || pulled_state) && !cmp_state(&o["ost"], &os, m, mag) {
                 bad(rep, idx, &format!("own state (last request) of terminal {x}"), o["ost"].clone(), js_state(&os));
                 return;
             }
-            if (ob_cmd || aborted) && !cmp_cmd(&o["ocmd"], &oc, m, mag) {
+            if (ob_cmd || aborted || pulled_cmd) && !cmp_cmd(&o["ocmd"], &oc, m, mag) {
                 bad(rep, idx, &format!("own command (last request) of terminal {x}"), o["ocmd"].clone(), js_cmd(&oc));
                 return;
             }
